@@ -11,3 +11,5 @@ if [ ! -x $V/bin/python ] || ! $V/bin/python -c "import z3, numpy, scipy" 2>/dev
   PIP_NO_INDEX=1 $V/bin/pip install -q --no-index --find-links /opt/veriftools/wheels z3-solver cvc5 jsonschema >/dev/null
 fi
 $V/bin/python -c "import z3, cvc5, numpy, scipy; print('setup ok: z3', z3.get_version_string(), 'numpy', numpy.__version__)"
+# translator validation (DESIGN 2.8): repo test inputs through the float code and through the symbolic layer on constants
+$V/bin/python -W ignore -m symx.selftest | tail -1 || echo "WARNING: selftest reported mismatches (see python -m symx.selftest)"
